@@ -1,6 +1,6 @@
 (* Correspondence layer for composites (C16). *)
 From Coq Require Import List NArith ZArith Bool.
-From Viv Require Import Base.Assoc Base.Tree Model.Paths Model.Composite.
+From Viv Require Import Base.Assoc Base.Tree Model.Paths Model.Composite Model.Override.
 Import ListNotations.
 
 Definition dt_equ := tree_equ N.eqb.
@@ -11,16 +11,26 @@ Definition comp_equ (a b : comp) : bool :=
 
 Inductive ocase :=
 | OEmbed (p : list key) (c : comp) (exp : comp)                       (* Composer.generate(path=p) *)
-| OMerge (self : comp) (ms : list (comp * comp * list key)) (exp : comp).   (* a sequence of Composite.merge calls *)
+| OMerge (self : comp) (ms : list (comp * comp * list key)) (exp : comp)    (* a sequence of Composite.merge calls *)
+(* schema overrides: the processes dict (leaves: process ids), the overrides, the schema every ports_schema() declares,
+   and what each process's get_schema() returned afterwards (None: handing the overrides over raised) *)
+| OOverride (procs : ptree) (ov : stree) (ports : stree) (obs : option (list (N * stree))).
 
 Definition check_case (c : ocase) : bool :=
   match c with
   | OEmbed p x e => match embed p x with Ok r => comp_equ r e | Err _ => false end
   | OMerge s ms e => match merge_all s ms with Ok r => comp_equ r e | Err _ => false end
+  | OOverride procs ov ports obs =>
+    match override_schemas ov procs, obs with
+    | Ok l, Some o => forallb (fun ps => tree_equ Z.eqb (get_schema (fun _ => ports) l (fst ps)) (snd ps)) o
+    | Err _, None => true
+    | _, _ => false
+    end
   end.
 
 Definition model_out (c : ocase) :=
   match c with
   | OEmbed p x _ => embed p x
   | OMerge s ms _ => merge_all s ms
+  | OOverride _ _ _ _ => Err EOther
   end.
